@@ -31,9 +31,14 @@ def rdate(rnd, micro):
     return d
 
 
+# fixed-offset zones (POSIX TZ strings): the dates written must denote the same instants in any of them
+TZS = [("UTC", "+00:00"), ("<-0330>3:30", "-03:30"), ("<+0545>-5:45", "+05:45"), ("<-0930>9:30", "-09:30"), ("<+1400>-14", "+14:00")]
+CUR_TZ = ["+00:00"]
+
+
 def iso_utc(d, keep_micro):
     d2 = d if keep_micro else d.replace(microsecond=0)
-    return d2.isoformat() + "+00:00"
+    return d2.isoformat() + CUR_TZ[0]
 
 
 def gen_spec(rnd):
@@ -226,7 +231,13 @@ def run(ctx):
     from ascmhl.chain import MHLChain, MHLChainGeneration
 
     n = ctx.scale(250, 5000)
+    import time as _time
+    old_tz = os.environ.get("TZ")
     for i in range(n):
+        tzname, suffix = TZS[i % len(TZS)] if i % 2 else TZS[0]
+        os.environ["TZ"] = tzname
+        _time.tzset()
+        CUR_TZ[0] = suffix
         spec = gen_spec(rnd)
         with rt.tempdir("c10_") as d:
             root = os.path.join(d, "root")
@@ -275,6 +286,12 @@ def run(ctx):
                 fails.append({"what": f"independent reader sees record paths {ip!r}, the tool's reader {[r['path'] for r in back['records']]!r}", "replay": {"spec": mspec}})
             if i < 2:
                 samples.append(mspec)
+    if old_tz is None:
+        os.environ.pop("TZ", None)
+    else:
+        os.environ["TZ"] = old_tz
+    _time.tzset()
+    CUR_TZ[0] = "+00:00"
     # chain files
     for i in range(ctx.scale(60, 1000)):
         with rt.tempdir("c10c_") as d:
